@@ -128,6 +128,12 @@ def produce_files(ck, exe, env, count, maxchunks=3, want_zero_tag_byte=2):
     """encrypt `count` structured cases with the implementation; returns [(EncCase, file bytes)].
     A few extra files are selected (from a larger pool of encryptions) for having a 0x00 byte inside their tag."""
     cases = enc_cases(ck, count + (40 * want_zero_tag_byte if want_zero_tag_byte else 0), maxchunks=maxchunks)
+    # the smallest valid files (one body block) and an exact chunk multiple are always among them
+    r = ck.rng
+    for j, n in enumerate((0, 15, 16, CH - 1)):
+        if j < count:
+            c = cases[j]
+            cases[j] = EncCase(n, c.cm, c.hm, [4, 1, 2, 16][j], c.key, c.seed, rnd_bytes(r, n), "len=%s" % lencls(n))
     lines = ["e%d %s" % (i, c.line()) for i, c in enumerate(cases)]
     impl = wv.run_lines([exe], lines, env=env)
     res, extra = [], []
